@@ -199,12 +199,17 @@ impl PhoneticSuggestion {
         let mut selection = self.get_prev_selection(&string, data, selections);
 
         // The typed English text keeps its meta characters as they were typed, so a
-        // selection of it is looked up with them instead of the converted ones.
+        // selection of it is looked up with them instead of the converted ones. The
+        // emoji of an emoticon is not wrapped at all, so it is looked up as it is.
         if selection == 0 {
             if let Some(item) = selections.get(string.word()) {
                 let typed = SplittedString::split(term, false);
-                let item = format!("{}{}{}", typed.preceding(), item, typed.trailing());
-                if let Some(index) = self.suggestions.iter().position(|i| *i.to_string() == item) {
+                let wrapped = format!("{}{}{}", typed.preceding(), item, typed.trailing());
+                if let Some(index) = self
+                    .suggestions
+                    .iter()
+                    .position(|i| *i.to_string() == wrapped || i.to_string() == item)
+                {
                     selection = index;
                 }
             }
